@@ -18,6 +18,8 @@ def plan(tier, seed):
         j["name"] += "[ids=%s]" % ids
         jobs.append(j)
     jobs.append(ch("C19", "vf/pyshim/h_partfile.py", "h_make_part_file", t, ["writer.make_part_file"]))
+    jobs.append(ch("C19", "vf/pyshim/h_open.py", "h_reopen_independent", t,
+                   ["api.ParquetFile.__init__", "api.ParquetFile._parse_header"]))
     jobs.append(ch("C19", "vf/pyxlift/h_footer.py", "h_common_metadata", t,
                    ["writer.write_common_metadata", "cencoding.ThriftObject.to_bytes (compiled, concrete)"]))
     jobs.append(ch("C19", "vf/pyshim/h_write.py", "h_write_append_truthy", t,
